@@ -353,6 +353,11 @@ func (e *Engine) script(o *Obligation, dropQuant bool) string {
 			if used[i] {
 				sb.WriteString(a)
 				sb.WriteByte('\n')
+				e.axiomMu.Lock()
+				if n, ok := e.axiomNote[a]; ok {
+					e.axiomUsed[n] = true
+				}
+				e.axiomMu.Unlock()
 			}
 		}
 	}
